@@ -152,7 +152,7 @@ def build(cfg):
         ts = [b.add() for _ in range(n)]
         b.many(ts)
         comb = None
-        if mode == "sd":
+        if mode in ("sd", "sdx"):
             olay = StructLayout({"s": n, "d": w})
 
             def comb_f(m, vs):
@@ -164,6 +164,20 @@ def build(cfg):
             comb = (olay, comb_f)
         dut = T.MethodTryProduct.create([a.iface for a in ts], comb)
         methods = {"call": dut.method}
+        if mode == "sdx":
+            # a third-party transaction of the harness calls target 1 directly (request / argument are inputs)
+            from transactron import Transaction
+            xreq, xarg, xran = Signal(name="xreq"), Signal(w, name="xarg"), Signal(name="xran")
+            b.inputs.update({"xreq": xreq, "xarg": xarg})
+            b.pub["xran"] = xran
+            base_extra = b.extra
+
+            def extra(m, _t=ts[0]):
+                base_extra(m)
+                with Transaction(name="third_party").body(m, ready=xreq):
+                    _t.iface(m, data=xarg)
+                    m.d.comb += xran.eq(1)
+            return dut, methods, b.pub, extra, b.inputs
     elif kind == "nonexcl":
         t = b.add(has_in=(mode == "arg"))
         b.single(t, "t", has_in=(mode == "arg"))
@@ -232,6 +246,8 @@ def in_names(cfg):
         return [("trdy", None, 0), ("tval", None, 1), ("crdy", None, 0), ("cval", None, 2)]
     if k in ("map", "filter", "nonexcl"):
         return [("trdy", None, 0), ("tval", None, 1)]
+    if k == "tryproduct" and mode == "sdx":
+        return [("rdy", n, 0), ("val", n, 1), ("xreq", None, 0), ("xarg", None, 1)]
     return [("rdy", n, 0), ("val", n, 1)]
 
 
@@ -372,6 +388,7 @@ def trace_cfgs(thorough):
             C("product", 3, mode="sum", w=w), C("product", 3, mode="first", w=3),
             C("tryproduct", 1, mode="sd", w=w), C("tryproduct", 2, mode="sd", w=w), C("tryproduct", 2, mode="none", w=w),
             C("tryproduct", 3, mode="sd", w=w), C("tryproduct", 3, mode="sd", w=3),
+            C("tryproduct", 1, mode="sdx", w=w), C("tryproduct", 2, mode="sdx", w=w), C("tryproduct", 3, mode="sdx", w=3),
             C("nonexcl", 2, mode="arg", w=w), C("nonexcl", 3, mode="arg", w=3), C("nonexcl", 2, mode="noarg", w=w),
             C("nonexcl", 3, mode="noarg", w=w)]
     return cfgs
